@@ -22,7 +22,7 @@ WRAPFLAGS_D := $(WRAP_D:%=-Wl,--wrap=%)
 
 .PHONY: all build gen conf clean
 all: build
-build: gen $(B)/simd $(B)/vq conf
+build: gen $(B)/simd $(B)/vq $(B)/uidcoll.json conf
 
 gen:
 	@mkdir -p $(B)/lib
@@ -52,6 +52,12 @@ $(B)/vq.o: /verif/sim/vq.c $(SRC)/echsq.c $(SRC)/echsq.yucc $(wildcard $(SRC)/*.
 
 $(B)/vq: $(B)/vq.o $(B)/version.o $(LIBOBJ)
 	@$(CC) $(CFLAGS) -Wl,--wrap=time -o $@ $^ -lm
+
+# UID strings with colliding task hashes (for C11)
+$(B)/vhash: /verif/sim/vhash.c $(B)/lib/hash.o
+	@gcc -O2 -w -I$(SRC) -o $@ /verif/sim/vhash.c $(SRC)/hash.c
+$(B)/uidcoll.json: $(B)/vhash
+	@$(B)/vhash > $@
 
 # libev model conformance: same scenarios on the installed libev and on the model
 $(B)/conf_real: /verif/sim/evmodel_conf.c
